@@ -29,8 +29,8 @@ class ProtocolTreeNode(object):
             and self.data == protocolTreeNode.data\
             and self.attributes == protocolTreeNode.attributes\
             and len(self.getAllChildren()) == len(protocolTreeNode.getAllChildren()):
-                found = False
                 for c in self.getAllChildren():
+                    found = False
                     for c2 in protocolTreeNode.getAllChildren():
                         if c == c2:
                             found = True
@@ -38,8 +38,8 @@ class ProtocolTreeNode(object):
                     if not found:
                         return False
 
-                found = False
                 for c in protocolTreeNode.getAllChildren():
+                    found = False
                     for c2 in self.getAllChildren():
                         if c == c2:
                             found = True
